@@ -324,21 +324,54 @@ pub struct Obs {
     /// metainfo says 3, reload ok, reloaded info/features/lib equal or not comparable)
     pub oracle: Vec<(String, bool)>,
     pub info_keys: Vec<String>,
+    /// the generated files parse back to the intended values
+    pub writer_ok: bool,
 }
 
 fn has_nan(i: &norad::FontInfo) -> bool {
     i != i
 }
 
+/// the plist text that was written holds exactly the intended values (reals bit for bit)
+fn same_value(p: &P, v: &plist::Value) -> bool {
+    match (p, v) {
+        (P::Int(z), plist::Value::Integer(i)) => {
+            i.as_signed().map(|s| s as i128 == *z).unwrap_or(false) || i.as_unsigned().map(|u| u as i128 == *z).unwrap_or(false)
+        }
+        (P::Real(x), plist::Value::Real(y)) => x.to_bits() == y.to_bits() || (x.is_nan() && y.is_nan()),
+        (P::Str(a), plist::Value::String(b)) => a == b,
+        (P::Bool(a), plist::Value::Boolean(b)) => a == b,
+        (P::Data(a), plist::Value::Data(b)) => a == b,
+        (P::Arr(a), plist::Value::Array(b)) => a.len() == b.len() && a.iter().zip(b.iter()).all(|(x, y)| same_value(x, y)),
+        (P::Dict(a), plist::Value::Dictionary(b)) => same_dict(a, b),
+        _ => false,
+    }
+}
+fn same_dict(a: &[(String, P)], b: &plist::Dictionary) -> bool {
+    a.len() == b.len() && a.iter().all(|(k, v)| b.get(k).map(|w| same_value(v, w)).unwrap_or(false))
+}
+fn written_as_intended(dir: &Path, c: &Case) -> bool {
+    let chk = |name: &str, d: &Option<Vec<(String, P)>>| match d {
+        None => true,
+        Some(d) => plist::Value::from_file(dir.join(name))
+            .ok()
+            .and_then(|v| v.into_dictionary())
+            .map(|m| same_dict(d, &m))
+            .unwrap_or(false),
+    };
+    chk("fontinfo.plist", &c.fontinfo) && chk("lib.plist", &c.lib)
+}
+
 pub fn observe(dir: &Path, c: &Case) -> Obs {
     write_ufo(dir, c);
+    let writer_ok = written_as_intended(dir, c);
     // Font::load is load_requested_data(DataRequest::all()); exercise the entry point itself
     let r = if c.req == 0 {
         catch(|| Font::load(dir))
     } else {
         catch(|| Font::load_requested_data(dir, data_request(c.req)))
     };
-    let mut o = Obs { tm: Tm::L(vec![]), loaded: false, panic: None, error: None, oracle: vec![], info_keys: vec![] };
+    let mut o = Obs { tm: Tm::L(vec![]), loaded: false, panic: None, error: None, oracle: vec![], info_keys: vec![], writer_ok };
     match r {
         Err(msg) => {
             o.tm = Tm::L(vec![Tm::N(2), Tm::N(0)]);
@@ -402,6 +435,8 @@ pub fn observe(dir: &Path, c: &Case) -> Obs {
 pub struct Schema {
     pub v1: Vec<(String, String)>,
     pub v2: Vec<(String, String)>,
+    pub v1_conv: Option<Vec<String>>,
+    pub v2_conv: Option<Vec<String>>,
 }
 fn load_schema(p: &Path) -> Schema {
     let j: J = serde_json::from_str(&std::fs::read_to_string(p).expect("schema file")).expect("schema json");
@@ -412,7 +447,11 @@ fn load_schema(p: &Path) -> Schema {
             .map(|kv| (kv[0].as_str().unwrap().to_string(), kv[1].as_str().unwrap().to_string()))
             .collect()
     };
-    Schema { v1: f("v1"), v2: f("v2") }
+    // legacy keys whose conversion is not a plain copy (round, abs, ...); absent: treat all as such
+    let g = |k: &str| -> Option<Vec<String>> {
+        j.get(k).and_then(|a| a.as_array()).map(|a| a.iter().filter_map(|x| x.as_str().map(|s| s.to_string())).collect())
+    };
+    Schema { v1: f("v1"), v2: f("v2"), v1_conv: g("v1_conv"), v2_conv: g("v2_conv") }
 }
 
 const FONT_STYLES: [i128; 5] = [0, 1, 32, 33, 64];
@@ -502,6 +541,47 @@ fn special_reals() -> Vec<f64> {
     }
     v
 }
+/// the neighbours in the binary64 order (bit pattern +-1)
+fn succ(x: f64) -> f64 {
+    if x == 0.0 {
+        f64::from_bits(1)
+    } else if x > 0.0 {
+        f64::from_bits(x.to_bits() + 1)
+    } else {
+        f64::from_bits(x.to_bits() - 1)
+    }
+}
+fn pred(x: f64) -> f64 {
+    -succ(-x)
+}
+/// every rounding / cast boundary the conversions have, with its two neighbours, both signs:
+/// halves k + 0.5 (small k, around the i32 / u32 limits, the last half below 2^52), the
+/// integers themselves (small, the type limits, 2^52, 2^53, 2^63, 2^64) and zero (-0.0 and the
+/// smallest subnormals)
+fn boundary_reals() -> Vec<f64> {
+    let mut base: Vec<f64> = vec![];
+    for k in [0.0f64, 1.0, 2.0, 3.0, 4.0, 10.0, 99.0, 1000.0, 32767.0, 65535.0, 2147483646.0, 2147483647.0,
+              2147483648.0, 4294967294.0, 4294967295.0, 4294967296.0, 4503599627370495.0] {
+        base.push(k + 0.5);
+    }
+    for k in [0.0f64, 1.0, 2.0, 3.0, 1000.0, 2147483647.0, 2147483648.0, 4294967295.0, 4294967296.0,
+              4503599627370496.0, 9007199254740992.0, 9223372036854775808.0, 18446744073709551616.0] {
+        base.push(k);
+    }
+    let mut out: Vec<f64> = vec![];
+    let mut seen = std::collections::BTreeSet::new();
+    for b in base {
+        for x in [b, pred(b), succ(b)] {
+            for y in [x, -x] {
+                if seen.insert(y.to_bits()) {
+                    out.push(y);
+                }
+            }
+        }
+    }
+    out
+}
+
 fn special_ints() -> Vec<i128> {
     vec![
         0, 1, -1, 2, -2, 255, 256, 65535, 2147483647, 2147483648, -2147483648, -2147483649, 4294967295,
@@ -758,6 +838,18 @@ pub fn gen_cases(s: &Schema, seed: u64, thorough: bool) -> Vec<Case> {
                 cs.push(case("real-tie", v, Some(vec![(k.to_string(), P::Real(*x))]), None, None));
             }
         }
+        // the boundary neighbours: on every attribute with a numeric conversion in every run, on
+        // the copied ones in rotation
+        let conv = if v == 1 { &s.v1_conv } else { &s.v2_conv };
+        let bounds = boundary_reals();
+        for (fi, (k, _)) in numeric.iter().enumerate() {
+            let converted = conv.as_ref().map(|c| c.contains(k)).unwrap_or(true);
+            for (vi, x) in bounds.iter().enumerate() {
+                if converted || thorough || (vi + fi + seed as usize) % 8 == 0 {
+                    cs.push(case("real-boundary", v, Some(vec![(k.to_string(), P::Real(*x))]), None, None));
+                }
+            }
+        }
         let uint32: Vec<&(String, String)> = sch.iter().filter(|(_, t)| t == "TU32").collect();
         for (k, _) in uint32.iter() {
             for z in ints.iter() {
@@ -930,7 +1022,7 @@ pub fn gen_cases(s: &Schema, seed: u64, thorough: bool) -> Vec<Case> {
                 c.req = q;
                 cs.push(c);
             }
-        } else if (i + seed as usize) % 3 == 0 {
+        } else if cs[i].label != "real-boundary" && (i + seed as usize) % 3 == 0 {
             let mut c = cs[i].clone();
             c.req = 1 + (i / 3 + seed as usize) % (REQUESTS.len() - 1);
             cs.push(c);
@@ -1007,6 +1099,7 @@ fn run_cases(a: &Args, cases: Vec<Case>) {
         j["panic"] = json!(o.panic);
         j["error"] = json!(o.error);
         j["variant_differs"] = json!(variant_differs);
+        j["writer_roundtrip"] = json!(o.writer_ok);
         j["oracle"] = json!(o.oracle.iter().map(|(k, v)| json!([k, v])).collect::<Vec<_>>());
         j["info_keys"] = json!(o.info_keys);
         jl.push_str(&j.to_string());
@@ -1031,6 +1124,7 @@ pub fn main(a: &Args) {
         std::fs::create_dir_all(&a.out).unwrap();
         let o = observe(&a.out.join("replay.ufo"), &c);
         println!("input: {}", j_case(&c));
+        println!("generated files parse back to the intended values: {}", o.writer_ok);
         println!("loaded: {}", o.loaded);
         if let Some(e) = &o.error {
             println!("error: {}", e);
